@@ -1059,4 +1059,94 @@ Section Real.
       apply rsum_index. intros i v5 Hi. destruct (P i v5 Hi) as (_ & _ & _ & G). cbn [Nat.add]. apply G.
   Qed.
 
+  (* ---- whole runs ------------------------------------------------------------------------------------ *)
+  (* the history of the biases is a function of the biases, the step numbers and the imposed values *)
+  Definition bst := (Z * bool * list bias)%type.
+  Definition sout := (Z * list bias * list (list cvc))%type.
+
+  Definition bstep (nv : nat) (s : bst) (ev : @event R) : bst * list sout :=
+    let '(it, first, bs) := s in
+    match ev with
+    | EStep xs =>
+      let it' := if first then it else (it + 1)%Z in
+      let bs' := map (bias_step it' nv xs) bs in ((it', false, bs'), [(it', bs', xs)])
+    | ERepeat xs =>
+      let bs' := map (bias_step it nv xs) bs in ((it, false, bs'), [(it, bs', xs)])
+    | ESetActive id on => ((it, first, map (set_active_self id on) bs), [])
+    end.
+
+  Fixpoint btrace (nv : nat) (s : bst) (evs : list (@event R)) : list sout :=
+    match evs with
+    | [] => []
+    | ev :: r => let '(s', o) := bstep nv s ev in o ++ btrace nv s' r
+    end.
+
+  Definition out_ok (nv : nat) (o : @out R BS) (t : sout) : Prop :=
+    let '(it, bs, xs) := t in
+    o_it o = it /\ o_biases o = bs /\ o_energy o = EN bs /\
+    forall k, coord_force Rops (o_vars o) k = CF bs xs nv k.
+
+  Definition StInv (m : @mstate R BS) : Prop := VInv (m_biases m) (m_vars m).
+
+  Lemma do_calc_closed (m : @mstate R BS) it xs :
+    StInv m ->
+    let r := do_calc Rops fixed efix m it xs in
+    let bs' := map (bias_step it (length (m_vars m)) xs) (m_biases m) in
+    StInv (fst r) /\ length (m_vars (fst r)) = length (m_vars m) /\
+    m_it (fst r) = it /\ m_first (fst r) = false /\ m_biases (fst r) = bs' /\
+    Forall2 (out_ok (length (m_vars m))) (snd r) [(it, bs', xs)].
+  Proof.
+    intros H. cbn zeta. unfold do_calc.
+    pose proof (calc_closed it (m_vars m) (m_biases m) xs H) as C. cbn zeta in C.
+    destruct (calc Rops fixed efix it (m_vars m) (m_biases m) xs) as [[[vs bs] e] en].
+    cbn [fst snd] in *. destruct C as (C1 & C2 & C3 & C4 & C5). subst bs.
+    unfold StInv. cbn [m_vars m_biases m_it m_first].
+    repeat (split; [first [assumption | reflexivity]|]).
+    constructor; [|constructor]. unfold out_ok. cbn [o_it o_biases o_energy o_vars]. auto.
+  Qed.
+
+  Lemma run_closed evs : forall (m : @mstate R BS),
+    StInv m ->
+    Forall2 (out_ok (length (m_vars m))) (run Rops fixed efix m evs)
+            (btrace (length (m_vars m)) (m_it m, m_first m, m_biases m) evs).
+  Proof.
+    induction evs as [|ev r IH]; intros m H; [constructor|].
+    cbn [run btrace].
+    destruct ev as [xs|xs|id on]; cbn [mstep bstep].
+    - pose proof (do_calc_closed m (if m_first m then m_it m else (m_it m + 1)%Z) xs H) as D. cbn zeta in D.
+      destruct (do_calc Rops fixed efix m (if m_first m then m_it m else (m_it m + 1)%Z) xs) as [m' o].
+      cbn [fst snd] in D. destruct D as (D1 & D2 & D3 & D4 & D5 & D6).
+      apply Forall2_app; [exact D6|].
+      specialize (IH m' D1). rewrite D2, D3, D4, D5 in IH. exact IH.
+    - pose proof (do_calc_closed m (m_it m) xs H) as D. cbn zeta in D.
+      destruct (do_calc Rops fixed efix m (m_it m) xs) as [m' o].
+      cbn [fst snd] in D. destruct D as (D1 & D2 & D3 & D4 & D5 & D6).
+      apply Forall2_app; [exact D6|].
+      specialize (IH m' D1). rewrite D2, D3, D4, D5 in IH. exact IH.
+    - destruct (set_active_spec id on (m_biases m) [] (m_vars m) H) as (S1 & S2 & S3).
+      destruct (set_active id on (m_biases m) (m_vars m)) as [[bs vs] e]. cbn [fst snd app] in *. subst bs.
+      cbn [app].
+      specialize (IH (mkM (m_it m) (m_first m) vs (map (set_active_self id on) (m_biases m))) S2).
+      cbn [m_vars m_it m_first m_biases] in IH. rewrite S3 in IH. exact IH.
+  Qed.
+
+  Lemma init_StInv it0 tsfs (cfgs : list (@bias_cfg R BS)) : StInv (init Rops it0 tsfs cfgs).
+  Proof.
+    unfold StInv, init. cbn [m_vars m_biases].
+    apply (VInv_init_refs (map (init_bias Rops) cfgs) [] (map (init_var Rops) tsfs)).
+    - intros b Hb. apply in_map_iff in Hb. destruct Hb as (c & <- & _). reflexivity.
+    - apply VInv_init_vars.
+  Qed.
+
+  Lemma init_nv it0 tsfs (cfgs : list (@bias_cfg R BS)) : length (m_vars (init Rops it0 tsfs cfgs)) = length tsfs.
+  Proof. unfold init. cbn [m_vars]. rewrite init_refs_length, map_length. reflexivity. Qed.
+
+  Theorem run_cfg_closed it0 tsfs (cfgs : list (@bias_cfg R BS)) evs :
+    Forall2 (out_ok (length tsfs)) (run_cfg Rops fixed efix it0 tsfs cfgs evs)
+            (btrace (length tsfs) (it0, true, map (init_bias Rops) cfgs) evs).
+  Proof.
+    unfold run_cfg. pose proof (run_closed evs _ (init_StInv it0 tsfs cfgs)) as H.
+    rewrite init_nv in H. exact H.
+  Qed.
+
 End Real.
